@@ -25,9 +25,10 @@ def _phase():
 
 
 class _Base(ClassifierMixin, BaseEstimator):
-    def __init__(self, tag="r", first_only=False):
+    def __init__(self, tag="r", first_only=False, full=False):
         self.tag = tag
         self.first_only = first_only  # weight only column 0: ranking identical to that feature
+        self.full = full  # also log the complete feature rows of every scoring call
         self.log_ = []
 
     # -- learning: class-mean difference (closed form, deterministic, order independent) ----------
@@ -69,7 +70,8 @@ class _Base(ClassifierMixin, BaseEstimator):
         X = np.asarray(X, dtype=float)
         ph = _phase()
         s = np.asarray(self._score(X, ph), dtype=float)
-        self.log_.append(("score", ph, tuple(X[:, 0].tolist()), tuple(s.tolist()), X.shape[1]))
+        self.log_.append(("score", ph, tuple(X[:, 0].tolist()), tuple(s.tolist()), X.shape[1])
+                         + ((tuple(map(tuple, X.tolist())),) if self.full else ()))
         return s
 
 
@@ -78,6 +80,15 @@ class LinearRecorder(_Base):
 
     def decision_function(self, X):
         return self._logged_score(X)
+
+
+class OffsetRecorder(LinearRecorder):
+    """Decision function with a huge common offset (2e12) and a small spread (multiples of 1/4, exact in float64):
+    calibration must still be the exact affine map, which needs the subtraction before the scaling."""
+
+    def _score(self, X, phase):
+        raw = self._raw(X)
+        return 2.0e12 + np.round(raw * 4.0) / 4.0
 
 
 class BothRecorder(LinearRecorder):
@@ -205,6 +216,7 @@ def make_search(inner):
 ESTIMATORS = {
     "linear": LinearRecorder,
     "both": BothRecorder,
+    "offset": OffsetRecorder,
     "proba": ProbaRecorder,
     "memo": MemorisingRecorder,
     "constant": ConstantRecorder,
@@ -215,14 +227,14 @@ ESTIMATORS = {
 }
 
 
-def make_model(kind="linear", first_only=False, **kw):
+def make_model(kind="linear", first_only=False, full=False, **kw):
     from mokapot.model import Model
 
     kw.setdefault("train_fdr", 0.5)
     kw.setdefault("max_iter", 3)
     if kind.startswith("grid:"):  # e.g. "grid:linear": the recorder wrapped in a hyper-parameter search
         return Model(make_search(ESTIMATORS[kind[5:]](first_only=first_only)), scaler="as-is", **kw)
-    return Model(ESTIMATORS[kind](first_only=first_only), scaler="as-is", **kw)
+    return Model(ESTIMATORS[kind](first_only=first_only, full=full), scaler="as-is", **kw)
 
 
 def fit_log(model):
